@@ -114,6 +114,11 @@ Theorem names_created_exclusively : creates_exclusive gen_funcs gen_excl_funcs =
 Proof. vm_compute. reflexivity. Qed.
 Print Assumptions names_created_exclusively.
 
+Theorem reserved_names_stay_reserved :
+  reservations_kept gen_funcs gen_reserve_users = true /\ (2 <=? List.length gen_reserve_users)%nat = true.
+Proof. vm_compute. split; reflexivity. Qed.
+Print Assumptions reserved_names_stay_reserved.
+
 Theorem fetch_results_read_after_barrier : barrier_ok gen_funcs gen_guards gen_barrier_funcs = true.
 Proof. vm_compute. reflexivity. Qed.
 Print Assumptions fetch_results_read_after_barrier.
